@@ -34,22 +34,22 @@ UNARY = ["map", "filter", "scan", "take", "skip"]
 
 # property -> how it is checked
 PROPS = {
-    "C01": dict(ops=ALL_SRC, kinds=["C01"], thms="C01"),
-    "C02": dict(ops=ALL_SRC, kinds=["C02"], thms="C02"),
-    "C03": dict(ops=ALL_SRC, kinds=["C03"], thms="C03"),
+    "C01": dict(ops=ALL_SRC, kinds=["C01"], thms="C01", trees="std"),
+    "C02": dict(ops=ALL_SRC, kinds=["C02"], thms="C02", trees="std"),
+    "C03": dict(ops=ALL_SRC, kinds=["C03"], thms="C03", trees="std"),
     "C04": dict(ops=[o for o in ALL_SRC if o not in ("from_iter", "interval")] + ["for_each"],
                 kinds=["C04"], thms="C04"),
     "C05": dict(ops=["map", "filter", "scan", "take", "skip", "merge", "concat", "combine",
                      "flatten", "share"], kinds=["C05"], thms="C05"),
-    "C17": dict(ops=ALL_SRC + ["for_each"], kinds=["C17"], thms="C17"),
-    "C07": dict(ops=UNARY, kinds=["C07"], thms="C07"),
+    "C17": dict(ops=ALL_SRC + ["for_each"], kinds=["C17"], thms="C17", trees="std"),
+    "C07": dict(ops=UNARY, kinds=["C07"], thms="C07", skip_headers=["op=take n=0"]),
     "C08": dict(ops=["merge"], kinds=["C08"], thms="C08"),
     "C09": dict(ops=["concat"], kinds=["C09"], thms="C09"),
     "C10": dict(ops=["combine"], kinds=["C10"], thms="C10"),
     "C11": dict(ops=["flatten"], kinds=["C11"], thms="C11"),
     "C12": dict(ops=["share"], kinds=["C12"], thms="C12", skip_classes=["NestedFanout"]),
     "C14": dict(ops=["from_iter", "map", "filter", "scan", "take", "skip", "concat", "flatten"],
-                kinds=["C14"], thms="C14", gen_extra=["env=pull"]),
+                kinds=["C14"], thms="C14", gen_extra=["env=pull"], skip_headers=["op=take n=0"], trees="pull"),
     "C15": dict(ops=["from_iter"], kinds=["C15"], thms="C15"),
     "C16": dict(ops=["interval"], kinds=["C16"], thms="C16"),
 }
@@ -538,6 +538,18 @@ def seq_check(prop, tier, seed, t0, spec=None):
     en = enum_scripts(ops, depth)
     scripts += en
     scripts += gen_scripts(list(spec.get("gen_ops", ops)) + spec.get("gen_extra", []), seed, n_rand)
+    # a stream with "late" peer moves (talkbacks/handlers used after the protocol is over): model and crate
+    # must still agree; no monitor verdicts on these (the environment is not conformant)
+    scripts += gen_scripts(list(spec.get("gen_ops", ops)) + ["late=1"], seed + 1, n_rand // 4)
+    # closed compositions of crate operators over from_iter leaves, scripted sink: no model, the sink-side
+    # protocol monitor only ("programs" in the quantifiers of C01-C03, C14, C17)
+    n_tree = 0
+    if spec.get("trees"):
+        rt = sh([DRIVER, "gentree", str(seed + 3), str(n_rand // 4)] + (["pull"] if spec["trees"] == "pull" else []))
+        tl = [l for l in rt.stdout.splitlines() if l.strip()]
+        tl = corpus_scripts(["tree"]) + tl
+        n_tree = len(tl)
+        scripts += tl
     extra = spec.get("extra_scripts")
     if extra:
         scripts += extra(tier, seed)
@@ -558,9 +570,10 @@ def seq_check(prop, tier, seed, t0, spec=None):
         hist_ops[op] = hist_ops.get(op, 0) + 1
         if nontrivial(rt):
             distinct.add(op + "|" + rt)
-        if mt != rt:
+        if mt != rt and op != "tree":
             mismatches.append((s, mt, rt))
-        if any(k in cl for k in spec.get("skip_classes", [])):
+        if any(k in cl for k in spec.get("skip_classes", [])) or "late=1" in s \
+                or any(hh in s for hh in spec.get("skip_headers", [])):
             continue   # outside the quantifier of this property
         for v in vs:
             if kind_of(v)[0] in kinds:
@@ -641,6 +654,7 @@ def seq_check(prop, tier, seed, t0, spec=None):
         traces_validated_against_impl=len(scripts) - len(mismatches),
         correspondence_mismatches=len(mismatches),
         scripts_per_component=hist_ops,
+        closed_compositions_run=n_tree,
         known_findings_seen=sorted(known_hits.keys()),
         **extra_cov,
         samples=[dict(script=s, crate_trace=r) for s, r in list(zip(scripts, real))[n_corpus:n_corpus + 2] +
